@@ -23,6 +23,27 @@ SEED = {
  "C18": ("C18", "EmbeddedFS::new stops registering ancestors at the first known directory and then adds that path to the root listing", "an embedded folder with a directory two or more levels down holding two or more entries", "embedded-fs"),
  "C19": ("C19", "MemoryFS publish re-stamps the creation time when the previous content was empty", "set_creation_time on a file that is still empty, then write through a handle", ""),
  "C20": ("C20", "sync WalkDirIterator::next ignores a failing metadata lookup (if let Ok)", "a metadata call failing during walk_dir / copy_dir / move_dir: entry yielded as Ok, subtree skipped, copy_dir/move_dir report success", ""),
+ # second round (one more change per property, again by fresh sub-agents)
+ "C01b": ("C01", "PhysicalFS::create_file opens with OpenOptions write+create, losing the truncation File::create implies", "create_file on a path that already holds a longer file (directly, through an altroot, as an overlay write layer)", ""),
+ "C02b": ("C02", "MemoryFS reader seek saturates (saturating_add_signed) instead of failing on a position before byte 0", "reader: seek(Start(4)); seek(Current(-5)) - PhysicalFS fails, MemoryFS moves to 0", ""),
+ "C03b": ("C03", "OverlayFS::remove_dir prunes the deletion markers of the removed directory's former entries", "lower /d/sub/g: remove_file /d/sub/g, remove_dir /d/sub - /d/sub/g exists again below an absent directory", ""),
+ "C04b": ("C04", "PhysicalFS::create_file no longer truncates an existing file (OpenOptions without truncate)", "re-create an existing file and write fewer bytes: the old tail is read back", ""),
+ "C05b": ("C05", "PhysicalFS::open_file succeeds on directories (the directory check after File::open is dropped)", "open_file on any directory of a PhysicalFS: observers disagree about the entry's type", ""),
+ "C06b": ("C06", "parent_internal strips the length of self's filename instead of the last component of its argument", "join with two or more '..' that climb into a base whose trailing components differ in byte length", ""),
+ "C07b": ("C07", "AltrootFS no longer forwards set_creation_time (falls back to the trait's NotSupported default)", "set_creation_time through an altroot", ""),
+ "C08b": ("C08", "OverlayFS::whiteout_path creates the marker's parent directory, so every observer writes", "any observer call on an overlay path; a nested overlay as lower layer is then modified", ""),
+ "C09b": ("C09", "OverlayFS::remove_file skips the deletion marker when the write layer holds the file", "a file present in the write layer AND a lower layer, then remove_file: the lower copy shows through", ""),
+ "C10b": ("C10", "OverlayFS::create_file clears the deletion marker before checking what the lower layer holds", "remove_dir a lower-layer directory through the overlay, then create_file on the same path: error and the directory is back", ""),
+ "C11b": ("C11", "create_dir_all returns Ok at once when exists() is true for the target", "create_dir_all whose target is an existing FILE: Ok instead of an error", ""),
+ "C12b": ("C12", "PhysicalFS::open_file pre-checks is_file() and answers Other(\"Not a file\") for a missing path instead of FileNotFound", "open_file on an absent path of a PhysicalFS (also in the cross-filesystem fallback of copy_file/move_file)", ""),
+ "C13b": ("C13", "MemoryFS writer flush reports an error when its file is gone; Drop does flush().expect(..)", "a write handle dropped after its path was removed or replaced by a directory: panic in drop", ""),
+ "C14b": ("C14", "MemoryFS write handle skips publishing when the buffer length is unchanged", "seek back and overwrite in place between two flushes", ""),
+ "C15b": ("C15", "async MemoryFS writer publishes over a directory on close (type guard dropped in the async port only)", "w = create_file(p); remove_file(p); create_dir(p); drop/close(w)", "async-vfs"),
+ "C16b": ("C16", "MemoryFS WritableFile::flush publishes over whatever now lives at its path", "writer open, its file removed and the path re-created as a directory by another thread, then flush: the directory becomes a file and its children orphans", ""),
+ "C17b": ("C17", "PhysicalFS::create_dir becomes check-then-create; the loser's EEXIST surfaces as a plain I/O error", "two or more threads create_dir_all over a shared still-missing prefix on a PhysicalFS", ""),
+ "C18b": ("C18", "EmbeddedFS::create_dir answers DirectoryExists for existing directories instead of NotSupported", "create_dir / create_dir_all on an existing embedded directory: create_dir_all reports success on a read-only filesystem", "embedded-fs"),
+ "C19b": ("C19", "PhysicalFS sets timestamps through a handle opened for writing", "set_*_time on a read-only file or on a directory of a PhysicalFS", ""),
+ "C20b": ("C20", "VfsPath::is_dir conflates 'lookup failed' with 'not a directory' (metadata().map(..).unwrap_or(false))", "an I/O failure of a layer's metadata call while an overlay merges a listing: the layer's entries silently vanish", ""),
 }
 matrix = {}
 mp = os.path.join(ROOT, "seeded", "matrix.txt")
